@@ -167,7 +167,7 @@ func (u *Unit) argShape(e ast.Expr, at ast.Node, depth int) string {
 			}
 		}
 		// standard-library package functions (binary.BigEndian.AppendUint64, slices.Concat, …): keep operands
-		if f, _ := typeutil.Callee(u.Info, x).(*types.Func); f != nil && f.Pkg() != nil && !strings.Contains(strings.SplitN(f.Pkg().Path(), "/", 2)[0], ".") && depth < 3 && len(x.Args) <= 4 {
+		if f, _ := typeutil.Callee(u.Info, x).(*types.Func); f != nil && f.Pkg() != nil && !strings.Contains(strings.SplitN(f.Pkg().Path(), "/", 2)[0], ".") && depth < 3 && len(x.Args) <= 8 {
 			as := []string{}
 			for _, a := range x.Args {
 				as = append(as, u.argShape(a, at, depth+1))
@@ -266,7 +266,7 @@ func (u *Unit) rangeSource(v *types.Var) string {
 				if i == 1 {
 					which = "val"
 				}
-				out = which + "(" + u.argShape(rs.X, rs, 3) + ")"
+				out = which + "(" + u.argShape(rs.X, rs.X, 3) + ")"
 				return false
 			}
 		}
@@ -595,7 +595,14 @@ func (u *Unit) earlyReturnContext(list []ast.Stmt, child ast.Node, isGuard func(
 		if !ok || is.Else != nil || len(is.Body.List) == 0 || isGuard(is.Cond) {
 			continue
 		}
-		if _, ok := is.Body.List[len(is.Body.List)-1].(*ast.ReturnStmt); !ok {
+		switch last := is.Body.List[len(is.Body.List)-1].(type) {
+		case *ast.ReturnStmt:
+		case *ast.BranchStmt:
+			// `if c { continue }; rest` is `if !c { rest }` for the rest of the loop body
+			if last.Tok != token.CONTINUE {
+				continue
+			}
+		default:
 			continue
 		}
 		if b := u.BlockOf(is.Body.List[len(is.Body.List)-1]); b != nil && u.FR[b] {
@@ -657,7 +664,7 @@ func (u *Unit) forIndexShape(v *types.Var) string {
 				}
 			}
 		}
-		out = "key(" + u.argShape(y, fs, 3) + ")"
+		out = "key(" + u.argShape(y, fs.Cond, 3) + ")"
 		return false
 	})
 	return out
